@@ -31,7 +31,14 @@ OUTPUTS = {
     "empty": [""],
     "quotes": ["it's", 'say "hi"'],
     "unicode": ["é中"],
+    # more than a pipe buffer, less than the longest single argument execve accepts (written out by expand_out)
+    "large": ["@LARGE90K"],
 }
+BIGERR = "E" * 100000 + "\n"
+
+
+def expand_out(s):
+    return ("B" + "0123456789" * 9000) if s == "@LARGE90K" else s
 
 
 def _init(cicada):
@@ -86,7 +93,7 @@ def sub_output(sub):
         return "alias zz='vp_b'\n"
     if sub["inner"] in ("notfound", "unparsable"):
         return ""
-    return sub["out"]
+    return expand_out(sub["out"])
 
 
 def build(case):
@@ -136,9 +143,10 @@ def run_case(case):
             sub = p[1]
             nsub += 1
             with open(os.path.join(sb.vpdir, "out.%s" % sub["id"]), "wb") as f:
-                f.write(sub["out"].encode())
+                f.write(expand_out(sub["out"]).encode())
             with open(os.path.join(sb.vpdir, "err.%s" % sub["id"]), "wb") as f:
-                f.write(("ERR-%s\n" % sub["id"]).encode())
+                # (optionally more than a pipe buffer on the inner command's stderr)
+                f.write(("ERR-%s\n" % sub["id"] + (BIGERR if sub.get("bigerr") else "")).encode())
             if sub["inner"] == "failing":
                 with open(os.path.join(sb.vpdir, "rc.%s" % sub["id"]), "w") as f:
                     f.write("3")
@@ -156,6 +164,8 @@ def symptom(case, exp, r, recs):
     if r.timed_out:
         if r.diag and (r.diag["kind"] == "spin" or b"cicada:" in r.err):
             return "substitution-does-not-terminate"
+        if r.diag and r.diag["kind"] == "blocked" and r.diag["procs"] and all(p["cpu_ticks"] == 0 for p in r.diag["procs"]):
+            return "substitution-deadlocks"       # every process of the tree asleep with no CPU time: nothing will ever move
         return "TIMEOUT"
     if crashed(r):
         return "shell-crash"
@@ -219,7 +229,7 @@ def symptom(case, exp, r, recs):
 def judge(case):
     line, exp, r, recs = run_case(case)
     sym = symptom(case, exp, r, recs)
-    res = {"line": line, "expected": exp, "observed": [x["argv"][1:] for x in recs if x["name"] == "vp_argv"],
+    res = {"line": line, "expected": exp[:300], "observed": [[a[:300] for a in x["argv"][1:]] for x in recs if x["name"] == "vp_argv"],
            "stderr": r.err.decode("utf-8", "replace")[-300:]}
     if sym is None:
         return ("held", None, res)
@@ -248,8 +258,9 @@ def judge(case):
             if s2 and s2 != "TIMEOUT":
                 res["minimal_line"] = l2
                 sub = p[1]
-                return ("violated", "C11:%s:%s:inner=%s:output=%s:%s%s" % (
-                    sub["form"], case["ctx"], sub["inner"], sub["cls"], s2, "" if len(parts) == 1 else ":with-affixes"), res)
+                return ("violated", "C11:%s:%s:inner=%s:output=%s%s:%s%s" % (
+                    sub["form"], case["ctx"], sub["inner"], sub["cls"], "+large-stderr" if sub.get("bigerr") else "", s2,
+                    "" if len(parts) == 1 else ":with-affixes"), res)
     forms = "+".join(sorted({p[1]["form"] for p in subs}))
     return ("violated", "C11:%s:%s:several-substitutions-in-one-word(%d):%s" % (forms, case["ctx"], min(len(subs), 2), sym), res)
 
@@ -263,9 +274,13 @@ def gen_case(rng, k):
         if lit:
             parts.append(("lit", lit))
         cls = rng.choice(list(OUTPUTS))
+        if cls == "large" and any(p[0] == "sub" and p[1]["cls"] == "large" for p in parts):
+            cls = "plain"        # two of them in one word exceed what execve accepts for a single argument
         inner = rng.choice(["simple"] * 6 + ["pipeline", "failing", "var", "builtin", "builtin-pipeline", "notfound", "unparsable", "nested", "nested", "quoted-args", "quoted-args"])
         parts.append(("sub", {"form": rng.choice(["dollar", "backquote"]), "inner": inner, "cls": cls,
                               "out": rng.choice(OUTPUTS[cls]), "id": "K%d" % i}))
+        if inner in ("simple", "pipeline", "failing", "var") and rng.random() < 0.06:
+            parts[-1][1]["bigerr"] = True
     lit = rng.choice(lits)
     if lit:
         parts.append(("lit", lit))
@@ -299,8 +314,8 @@ def run(tier, seed):
     rep.rule = ("1..3 substitutions ($() or backquotes) per word with literal text around them, in unquoted / double-quoted "
                 "/ assignment / here-string context; inner commands: observer vp_out (simple, in a pipeline, failing, "
                 "named through a shell variable, with quoted arguments containing ) ( \\ and quotes, containing a substitution of the other spelling), a builtin, a not-found and an unparsable command; output texts from "
-                "17 classes ($1, ${x}, $NAME, backslashes, *, braces, regex-special, interior/trailing newlines, "
-                "leading/trailing blanks, nested substitution syntax, operators, quotes, empty, unicode).  Non-trivial "
+                "18 classes ($1, ${x}, $NAME, backslashes, *, braces, regex-special, interior/trailing newlines, "
+                "leading/trailing blanks, nested substitution syntax, operators, quotes, empty, unicode, 90 KB = more than a pipe buffer); 6% of the inner commands also write 100 KB to stderr.  Non-trivial "
                 "= always; distinct by full case.")
     rep.assumptions = ["unquoted results are compared modulo blank/newline runs (field splitting unspecified)",
                        "3000 rewrite steps for <=3 substitutions means non-termination"]
